@@ -11,8 +11,7 @@ RULE = ("random schemas (depth <= 3: SEQUENCE / SET / SEQUENCE OF, explicit and 
         "parse under the reference grammar of the mode. non-trivial = round trip of a schema with at least one field.")
 EXHAUSTIVE = {"quick": False, "thorough": False}
 EXHAUSTIVE_NOTE = {"quick": "", "thorough": ""}
-ASSUMPTIONS = ["CER encoders of string types are documented as unimplemented and not requested in CER",
-               "BER re-encoding of an OCTET STRING *value* decoded from an indefinite constructed form is the known finding D12 (not generated here; see C16)"]
+ASSUMPTIONS = ["CER encoders of string types are documented as unimplemented and not requested in CER"]
 
 ORACLE = {}
 
@@ -77,8 +76,6 @@ def relational(reqs, answers):
             got = os_content(a.split(" dec=[")[1].split("]")[0]) if a.startswith("ok len=") else None
             if got != data:
                 f = {"request": r, "impl": a[:400], "spec": "decoding the re-encoded octet string yields the content " + hx(data)}
-                if em == "ber" and form[:2] == bytes([0x24, 0x80]):
-                    f["sig"] = "D12"
                 fails.append(f)
             continue
         if r not in ORACLE:
@@ -106,4 +103,4 @@ def nontrivial(req, ans):
 
 LEVEL = "proof"
 LEVEL_TEXT = ("Lean 4 theorems. Framing, for EVERY tag (class <= 3, number <= 0x1FFFFF, not end-of-contents), every content below 2^32 octets, every context (top level, definite parent with any sufficient limit, indefinite parent), anything following, ANY closure: a value written as identifier ++ minimal definite length ++ content is read back by the tag-selective readers with the closure run on exactly the content window and the limit afterwards reduced by exactly the value's size (frame_definite; readIdent_identOctets, readLen_lenOctets); CER constructed values (80 ... 00 00) likewise (rt_cons_cer, eoc_exhausted). Composition: the inductive family Codec pairs every encoder composition built from primitive / implicitly or explicitly tagged constructed / sequence-set-tuple-vec / OPTIONAL-present / Choice / mapped values with the decoder built from take_primitive_if, take_value_if, take_constructed_if, their optional variants and sequencing; codec_roundtrip proves by induction over that family, at every nesting depth and in every mode, that decoding the written octets returns the value, consumes exactly them and leaves the Constructed as it was (top_roundtrip: Mode::decode returns the value with nothing left); DER output decodes to the same value in BER mode (der_decodes_in_ber). Leaves: all ten fixed-width INTEGER types, BOOLEAN, NULL, OBJECT IDENTIFIER, arbitrary-size INTEGER, BIT STRING, primitive OCTET STRING (leaf_*), from C14/C15/C19/C20. Correspondence: random typed value trees (all leaf types, SEQUENCE/SET, explicit/implicit tags, OPTIONAL present/absent, segmented strings) encoded by the REAL combinators in each mode, decoded by the real readers, DER output also in BER.")
-LEVEL_NOTE = ("Trusted: Lean 4.33 kernel; axioms propext, Classical.choice, Quot.sound only; the hand-written model tied to /repo on every run by differential correspondence through the real encoders and decoders. Covered by the correspondence check and other properties rather than by codec_roundtrip: OPTIONAL fields that are absent (C09 absent_iff_if gives the exact condition on what follows), constructed (segmented) OCTET STRINGs and restricted character strings as leaves (content level: C16, C17, C18), captured data (C11; known finding D12 concerns re-encoding a capture taken inside an indefinite value), well-formedness of the produced octets as such (C06 write_ok_spec: the writer equals the reference encoder; C02: the reference grammar). Stated on runG0 (SliceSource semantics; C07 carries capture-free reads to every conforming source).")
+LEVEL_NOTE = ("Trusted: Lean 4.33 kernel; axioms propext, Classical.choice, Quot.sound only; the hand-written model tied to /repo on every run by differential correspondence through the real encoders and decoders. Covered by the correspondence check and other properties rather than by codec_roundtrip: OPTIONAL fields that are absent (C09 absent_iff_if gives the exact condition on what follows), constructed (segmented) OCTET STRINGs and restricted character strings as leaves (content level: C16, C17, C18), captured data (C11; C16b.ber_accept_reencode: every accepted constructed OCTET STRING re-encodes in BER as a well-formed value of the same content), well-formedness of the produced octets as such (C06 write_ok_spec: the writer equals the reference encoder; C02: the reference grammar). Stated on runG0 (SliceSource semantics; C07 carries capture-free reads to every conforming source).")
